@@ -24,18 +24,31 @@ def sh(cmd, timeout=3600, cwd=None, env=None):
         raise ToolError('timeout after %ds: %s' % (timeout, str(cmd)[:200]))
     return p.returncode, p.stdout
 
-def build_harness(real=False):
+class HarnessBuildError(ToolError):
+    pass
+
+RVREAL = HARN + '/target/release/rvreal'
+
+def build_harness(real=False, inproc=True):
+    """real: the drivers that run the real binary (rvreal; nothing of /repo is compiled into it) and the real `ruler` of the current tree,
+    built with the guard off;  inproc: the in-process harness (rvh: /repo/src/*.rs compiled with the feature `verif`)"""
     t0 = time.time()
-    bins = '--bin rvh' + (' --bin ruler_real' if real and 'RULER_REAL_BIN' not in os.environ else '')
     env = {'CARGO_NET_OFFLINE': 'true'}
-    rc, out = sh('cargo build --release --offline --features verif ' + bins, cwd=HARN, timeout=3000, env=env)
-    if rc != 0:
-        sys.stdout.write(out[-4000:])
-        raise ToolError('harness build failed (the code under /repo/src no longer compiles with the harness)')
+    if real:
+        bins = '--bin rvreal' + (' --bin ruler_real' if 'RULER_REAL_BIN' not in os.environ else '')
+        rc, out = sh('cargo build --release --offline ' + bins, cwd=HARN, timeout=3000, env=env)
+        if rc != 0:
+            sys.stdout.write(out[-4000:])
+            raise ToolError('the real binary of the current tree does not build')
+    if inproc:
+        rc, out = sh('cargo build --release --offline --features verif --bin rvh', cwd=HARN, timeout=3000, env=env)
+        if rc != 0:
+            sys.stdout.write(out[-4000:])
+            raise HarnessBuildError('harness build failed (the code under /repo/src no longer compiles with the harness)')
     return time.time() - t0
 
 def harness(args, timeout=3000):
-    rc, out = sh([RVH] + args, timeout=timeout)
+    rc, out = sh([RVREAL if args[0] in ('realobs', 'realfs', 'serve') else RVH] + args, timeout=timeout)
     if rc != 0:
         raise ToolError('harness %s exited %d: %s' % (args[:2], rc, out[-2000:]))
     last = [l for l in out.strip().split('\n') if l.startswith('{')]
